@@ -305,6 +305,13 @@ func c16cold(c *mon.Ctx, idx int, out string) {
 		}
 		c16richLayout(c.Rand("coldlayout", idx), f)
 		desc = "generated " + kinds[idx/2%3]
+		if co, ok := f.Outlines.(*cff.Outlines); ok {
+			for i, g := range co.Glyphs {
+				if i%3 == 1 {
+					g.Width += 0.5 // in-memory fonts can have fractional widths
+				}
+			}
+		}
 		if (idx/2)%2 == 1 && !herd {
 			buf := &bytes.Buffer{}
 			if _, err := f.Write(buf); err == nil {
@@ -549,6 +556,16 @@ func runC16(c *mon.Ctx) {
 				name += "+contextual-layout"
 				k.Class("font:contextual-layout")
 				k.Class("font:explicit-class-0-entries")
+			}
+			if co, ok := f.Outlines.(*cff.Outlines); ok && (cf.font/2)%2 == 0 {
+				// a font constructed in memory can have fractional advance
+				// widths (files hold integers)
+				for i, g := range co.Glyphs {
+					if i%3 == 1 {
+						g.Width += 0.5
+					}
+				}
+				k.Class("font:cff-fractional-widths")
 			}
 			if (cf.font/2)%2 == 1 {
 				// as applications get it: written to a file and read back, so
@@ -795,6 +812,6 @@ func runC16(c *mon.Ctx) {
 		}
 		k.Distinct("canary")
 	})
-	c.Require("cold-start-process", "cold-start-process:same-first-call", "font:mark-filtering-set-without-gdef", "font:cid-fd-blocks", "font:read-back:cid", "font:read-back:glyf", "font:contextual-layout", "canary-race-reported", "goroutines=2", "goroutines=64", "GOMAXPROCS=2", "GOMAXPROCS=16",
+	c.Require("font:cff-fractional-widths", "cold-start-process", "cold-start-process:same-first-call", "font:mark-filtering-set-without-gdef", "font:cid-fd-blocks", "font:read-back:cid", "font:read-back:glyf", "font:contextual-layout", "canary-race-reported", "goroutines=2", "goroutines=64", "GOMAXPROCS=2", "GOMAXPROCS=16",
 		"overlap:Write+Write", "overlap:Write+Subset", "overlap:MakeGlyphNames+Layout", "overlap:Apply(GSUB)+ExplainGsub", "overlap:Subset+Layout")
 }
